@@ -377,7 +377,7 @@ func checkReselect(p *load.Program, r *kit.Report, longestF, branchesF *types.Va
 		reach := kit.Reach(ph, m.start, kit.Opts{StopAt: func(in ssa.Instruction) bool { return stop[in] }, BlockEdge: kit.EdgeSet(bypass...)})
 		bad := ""
 		for _, ret := range kit.Returns(ph) {
-			if reach.Has(ret) && kit.ReturnErrClass(ret) != kit.ErrNonNil {
+			if reach.Has(ret) && reach.ErrClass(ret) != kit.ErrNonNil {
 				bad = "accepting return at " + posOf(p, ret) + " reachable without re-selecting the tip: " + reach.PathTo(ret, p.Pos)
 			}
 		}
@@ -623,7 +623,7 @@ func checkLinkGuards(p *load.Program, r *kit.Report, headersF *types.Var) {
 			}
 			reach := kit.Reach(f, starts, kit.Opts{BlockEdge: kit.EdgeSet(edgesOf(gs, true)...)})
 			for _, ret := range kit.Returns(f) {
-				if reach.Has(ret) && kit.ReturnErrClass(ret) != kit.ErrNonNil {
+				if reach.Has(ret) && reach.ErrClass(ret) != kit.ErrNonNil {
 					bad = "a branch with a parent can be created without testing that the parent header's hash equals header.PrevBlock: " + reach.PathTo(ret, p.Pos)
 				}
 			}
@@ -656,7 +656,9 @@ func checkAtHeight(p *load.Program, r *kit.Report, headersF *types.Var) {
 			bad = "headers index is " + got.String() + ", want " + want.String()
 		}
 		// guarded by height > parentHeight
-		gs := kit.FindGuards(f, func(c ssa.Value) (bool, bool) { return cmpMatches(lin, c, pAtom(f, 1).Sub(kit.LinAtom("f:"+recvKey+"."+parentHeightF.Name())), 1) })
+		gs := kit.FindGuards(f, func(c ssa.Value) (bool, bool) {
+			return cmpMatches(lin, c, pAtom(f, 1).Sub(kit.LinAtom("f:"+recvKey+"."+parentHeightF.Name())), 1)
+		})
 		if ok, _ := kit.DominatedByEdges(f, in, edgesOf(gs, true), nil, p.Pos); !ok {
 			bad = "headers are indexed without the guard height > parentHeight"
 		}
